@@ -530,6 +530,14 @@ Proof.
   rewrite (Q _ _ X) in Z. discriminate.
 Qed.
 
+(* what a caller can come back with: the reply carrying its own id, the timeout, a send error, or (one-way) nothing *)
+Theorem outcome_cases ls s k c o : run init ls = Some s -> nth_error (calls s) k = Some c -> c_pc c = CRet o ->
+  o = OTimeout \/ o = OErr \/ o = OOneWay \/ exists p, o = OReply p /\ p_id p = c_id c /\ p_id p <> 0 /\ p_oneway p = false.
+Proof.
+  intros E H Hpc. destruct o as [p| | |]; auto. right. right. right. exists p. split; auto.
+  destruct (routing _ _ _ _ p E H (or_intror Hpc)) as [A [B [C _]]]. auto.
+Qed.
+
 (* ---------- non-vacuity and necessity of the hypothesis ---------- *)
 Definition pk (id : Z) (n : N) : packet := {| p_id := id; p_pay := n; p_oneway := false |}.
 
